@@ -127,6 +127,7 @@ class QSpec:
     new_cid_len: int = -1         # -1: same length as the server's CID
     new_cid_prefix: str = ""      # "" | "extend" (new CID = old CID + more bytes) | "truncate" (new CID = a proper prefix of the old one)
     client_new_cid_at: int = -1   # same, issued by the client, server switches
+    secrets: dict = None          # use these traffic secrets ({"chs"|"shs"|"cap"|"sap": bytes}) instead of random ones
     c_scid_value: bytes = None    # force the client's source connection ID (two clients of one server picking the same short ID)
     path_swaps: int = 0           # so many 1-RTT datagrams are overtaken by their successor on the path (shown swapped in the capture), see reorder_on_path
     late_hs_ack: bool = False     # after the server's HANDSHAKE_DONE the capture still shows a client datagram Handshake(ACK) + 1-RTT(STREAM) that was in flight (capture near the server)
@@ -221,6 +222,7 @@ def build_qconn(spec: QSpec, rng) -> QConn:
     c_scid = rb(spec.c_scid_len) if spec.c_scid_value is None else bytes(spec.c_scid_value)
     s_scid = rb(spec.s_scid_len)
     sec = {k: rb(hl) for k in ("chs", "shs", "cap", "sap")}
+    sec.update(spec.secrets or {})
     keylog = [f"CLIENT_HANDSHAKE_TRAFFIC_SECRET {cr.hex()} {sec['chs'].hex()}",
               f"SERVER_HANDSHAKE_TRAFFIC_SECRET {cr.hex()} {sec['shs'].hex()}",
               f"CLIENT_TRAFFIC_SECRET_0 {cr.hex()} {sec['cap'].hex()}",
@@ -674,4 +676,5 @@ def describe(spec: QSpec):
     d["app"] = [(dd, [[f[0] if f[0] != "raw" else f[2]["kind"] for f in p] for p in pk]) for dd, pk in spec.app][:12]
     d["sh_suite"] = None if spec.sh_suite < 0 else f"{spec.sh_suite:04X}"
     d["zero_rtt_packets"] = len(spec.zero_rtt)
+    d["secrets"] = {k: v.hex() for k, v in (spec.secrets or {}).items()}
     return d
